@@ -237,19 +237,10 @@ func TestGCMAgainstLibrarySM4Long(t *testing.T) {
 }
 
 // gfInv is h^(2^128-2) = product of h^(2^i), i = 1..127.
-func gfInv(h block) block {
-	r := block{0x80} // the polynomial 1
-	sq := h
-	for i := 1; i < 128; i++ {
-		sq = gfMul(sq, sq)
-		r = gfMul(r, sq)
-	}
-	return r
-}
 
 // nonceFor solves J0 = ((N*H) ^ L)*H for the 16-byte nonce N, L = 0^64||[128]_64.
 func nonceFor(h, j0 block) []byte {
-	hi := gfInv(h)
+	hi := gfInverse(h)
 	var l block
 	binary.BigEndian.PutUint64(l[8:], 128)
 	n := gfMul(xor(gfMul(j0, hi), l), hi)
